@@ -84,7 +84,9 @@ def execute(case):
             elif cmd in ('restart', 'reload'):
                 model.changed = True
                 if props.get("waiting"):
-                    pending.append((req, cmd, props))
+                    targets = [name] if name in model.np else list(model.np)
+                    for n_ in targets:
+                        pending.append((req, cmd, dict(props, name=n_)))
 
         def account():
             for item in list(pending):
@@ -310,6 +312,11 @@ def _strategy():
                 {"name": name,
                  "graceful": st.sampled_from([True, True, False]),
                  "sequential": st.booleans()}))),
+            # every watcher at once (arbiter-level reload, glob restart)
+            req('reload', with_wait(st.fixed_dictionaries(
+                {"graceful": st.sampled_from([True, False]),
+                 "sequential": st.booleans()}))),
+            req('restart', with_wait(st.just({"name": "w*"}))),
         )
         ops = draw(st.lists(st.one_of(reqs, reqs, pacing_ops(), pacing_ops(),
                                       death_ops(), death_ops()),
